@@ -8,7 +8,7 @@ ENTRY = {
             "(BIGINT / INTEGER / VARCHAR / DATE), NULL density 0/10/50/100 % per key column, small domains (duplicates), BIGINT payload v with 10 % NULLs; "
             "join type in rotation over INNER, LEFT, RIGHT, FULL OUTER, LEFT SEMI, LEFT ANTI, CROSS; 1-3 equi keys; residual ON predicate from "
             "{none, v0<v1, v0<=v1, v0<>v1, never-true arithmetic, left-only, right-only}; "
-            "2/3 kind:sql = the statement (JOIN syntax, or [NOT] EXISTS with equality correlation and optionally v0<>v1 for Semi/Anti) through ExecutionContext::sql, "
+            "2/3 kind:sql = the statement (JOIN syntax; for Semi/Anti 1 in 3 as [NOT] EXISTS with equality correlation and optionally a two-sided column comparison; 1 in 8 with a nested join `t1 x1 <inner|left|right> t1 x2` or `t0 x0 <..> t0 x9` as right or left input, VARCHAR keys preferred; 1 in 8 as SELECT COUNT(*), COUNT(col).. over the join) through ExecutionContext::sql, "
             "configuration in rotation over mem1, memb, pq1x64, pq2x7, pq2x500 (Parquet: StreamingParquetScanExec + SharedRuntimeFilter; multi-key Parquet joins run "
             "without the PackedJoinKeys rule, which is C03's), 1 case in 40 pairs an INTEGER with a BIGINT key (f:mixed_width); "
             "1/3 kind:op = HashJoinExec::with_filter(..).with_build_right(coin) driven directly over input operators with 1-4 partitions x chosen batches "
@@ -30,7 +30,7 @@ ENTRY = {
         "no memory limit is configured: the spilled join path belongs to C08; Single / Mark join types are outside the property",
     ],
     "min_tags": {"kind:sql": 1, "kind:op": 1, "jt:inner": 1, "jt:left": 1, "jt:right": 1, "jt:full": 1, "jt:semi": 1, "jt:anti": 1, "jt:cross": 1,
-                 "form:exists": 1, "cfg:mem": 1, "cfg:memb": 1, "cfg:pq": 1, "cfg:op": 1, "nkeys:1": 1, "nkeys:2": 1, "nkeys:3": 1,
+                 "form:exists": 1, "form:nested": 1, "form:count": 1, "cfg:mem": 1, "cfg:memb": 1, "cfg:pq": 1, "cfg:op": 1, "nkeys:1": 1, "nkeys:2": 1, "nkeys:3": 1,
                  "resid:none": 1, "resid:lt": 1, "resid:ne": 1, "resid:never": 1, "build:left": 1, "build:right": 1, "probe_parts:multi": 1,
                  "op:StreamingParquetScan": 1, "residual:yes": 1},
     "manifest": {
@@ -49,11 +49,8 @@ ENTRY = {
         "level_note": "Trusted: Lean kernel; propext/Classical.choice/Quot.sound; the reference semantics IQE.Spec; the hand-written model's fidelity to hash_join.rs "
                       "(sampled by K at operator level over partitions x batches and both build sides); the generator's SQL printer/plan serializer pair. "
                       "Sampled only: the planner's build-side choice and key extraction, Parquet scans with the runtime filter, sizes beyond 10 400 rows, the >= 32-batch parallel probe. "
-                      "Not covered: the spilled join (C08), Single/Mark joins, DOUBLE keys, the optimizer's join rules (C03/C32), decorrelation of EXISTS with ordered or arithmetic "
-                      "correlated predicates (C23). Open findings of the unchanged tree, each with witness and attribution rule (known_findings.json): C22-F1 filtered Semi/Anti "
-                      "probe an empty hash table; C22-F2 filtered Semi/Anti stop at the first qualifying build row; C22-F3 INTEGER/BIGINT key pair panics or fails; C22-F4 outer join "
-                      "with a batch-less build input fails; C22-F5 the compiled Semi/Anti residual ignores NULL. Over Parquet F2/F5 are attributed by a decidable signature "
-                      "(the build-row order and the raw value of NULL slots are not part of a case).",
+                      "Not covered: the spilled join (C08), Single/Mark joins, DOUBLE keys, the optimizer's join rules (C03/C32), decorrelation of EXISTS with arithmetic "
+                      "correlated predicates (C23). Findings of the original tree, each repaired in /repo by a fix: commit and replayed from corpus/C22 on every run (known_findings.json): C22-F1 filtered Semi/Anti probed an empty hash table (8981687); C22-F2 filtered Semi/Anti stopped at the first qualifying build row (fe1666e); C22-F3 INTEGER/BIGINT key pair panicked or failed (88e4154); C22-F4 outer join with a batch-less build input failed (448e791); C22-F5 the compiled Semi/Anti residual ignored NULL (a78c24c); C22-F6 a dictionary-encoded VARCHAR probe key matched nothing (ce75497); C22-F7 NULLs of a dictionary-gathered build column were not NULL downstream (8446944); C22-F8 Semi/Anti over a join output failed on the dictionary column type (f4afed7). The deviation switches of the model stay as their kernel-checked negation witnesses.",
         "technique": "Lean 4 proof over executable model + differential correspondence with the Rust engine on generated SQL and on the hash-join operator driven directly",
     },
 }
